@@ -367,6 +367,8 @@ fn raft_level(c: &CCase) -> Result<(), String> {
     let logger = slog::Logger::root(slog::Discard, slog::o!());
     let cfg = Config { id, election_tick: 10, heartbeat_tick: 1, max_inflight_msgs: 4, ..Default::default() };
     let mut r = Raft::new(&cfg, store, &logger).map_err(|e| format!("Raft::new: {:?}", e))?;
+    // a second node with the same start that only ever learns configurations from snapshots
+    let mut r3 = Raft::new(&cfg, MemStorage::new_with_conf_state(boot.to_cs()), &logger).map_err(|e| format!("Raft::new: {:?}", e))?;
     let mut m = boot;
     for (i, s) in c.steps.iter().enumerate() {
         let cc = cc_of(s);
@@ -404,6 +406,19 @@ fn raft_level(c: &CCase) -> Result<(), String> {
                 let r2 = Raft::new(&cfg, st2, &logger).map_err(|e| format!("Raft::new from {:?}: {:?}", cs, e))?;
                 if model_of_tracker(r2.prs()) != now {
                     return Err(format!("step {}: Raft::new from ConfState gives {:?}, expected {:?}", i, model_of_tracker(r2.prs()), now));
+                }
+                // a follower that receives this configuration in a snapshot (over whatever it tracked before)
+                if now.progress.contains(&id) {
+                    let mut snap = raft::eraftpb::Snapshot::default();
+                    snap.mut_metadata().index = 100 + i as u64;
+                    snap.mut_metadata().term = 1;
+                    *snap.mut_metadata().mut_conf_state() = cs.clone();
+                    if !r3.restore(snap) {
+                        return Err(format!("step {}: Raft::restore refused a snapshot carrying {:?}", i, cs));
+                    }
+                    if model_of_tracker(r3.prs()) != now {
+                        return Err(format!("step {}: Raft::restore of a snapshot carrying {:?} gives {:?}, expected {:?}", i, cs, model_of_tracker(r3.prs()), now));
+                    }
                 }
                 m = w;
             }
